@@ -42,3 +42,76 @@ Example C08_node_premises_satisfiable :
   (forall Pn w sl, node_kmpe_choice exV exE exfq exsc [] false 1 Pn w sl -> (1 <= sumq sl (layers 1))%Q).
 Proof. exact ex_c08_premises. Qed.
 Print Assumptions C08_node_premises_satisfiable.
+
+(* ---- audit additions (agent-c19): instances of the hypotheses the Example above does not reach ---- *)
+From Coq Require Import Lqa.
+From FP Require ErrEncProofs2 ErrEncComplete ErrEncOptimal ErrEncOptimal2.
+
+(* (a) the SOLVER hypotheses of C08_node_kmpe_optimal -- `sat a` and optimality of a -- hold for an explicit assignment on the chain
+   1 -> 2 (weights 3, 5; k = 1): the assignment of the completeness proof for the path 100,2,3,4,5,101 with weight 4 and slack 1;
+   objective 1.  Optimality: a satisfying assignment decodes to a choice of the expanded instance with total slack = its objective
+   (kmpe_decodes), the choice contracts to one of the caller's graph, and every such choice has total slack >= 1 (Example above). *)
+Definition C08_node_wit_a : var -> Q :=
+  ErrEncComplete.kmpe_asg (node_kmpe_inst exV exE 100 101 exfq exsc [] false 1) (expP 100 101 exPn) (fun _ => 4%Q) (fun _ => 1%Q) (fun _ => 0%N).
+
+Example C08_node_solver_hypotheses_satisfiable :
+  let M := node_kmpe_inst exV exE 100 101 exfq exsc [] false 1 in
+  sat C08_node_wit_a (encode_kmpe M) /\ (objective C08_node_wit_a (encode_kmpe M) == 1)%Q /\
+  (forall b, sat b (encode_kmpe M) -> (objective C08_node_wit_a (encode_kmpe M) <= objective b (encode_kmpe M))%Q).
+Proof.
+  cbn zeta. set (M := node_kmpe_inst exV exE 100 101 exfq exsc [] false 1).
+  destruct C08_node_premises_satisfiable as (NDV & NDE & HE & Htopo & Hincl & Hs & Ht & Hst & Hdom & _ & Hmin).
+  assert (E1 : (objective C08_node_wit_a (encode_kmpe M) == 1)%Q) by (vm_compute; reflexivity).
+  split; [apply ErrEncProofs2.sat_b_sound; vm_compute; reflexivity|]. split; [exact E1|].
+  intros b Hb. rewrite E1.
+  pose proof (wf_I exV exE 100 101 exfq exsc [] false 1 Hs Ht Hst HE NDV NDE) as WF.
+  destruct (ErrEncOptimal.kmpe_decodes M b (st_rank 100 101 (exp_topo exV)) (S (S (length (exp_topo exV)))) eq_refl eq_refl WF eq_refl
+              (st_rank_increasing (expV exV) (expE exV exE) 100 101 Hs Ht Hst (expE_ends exV exE HE) (exp_topo exV)
+                 (exp_topo_increasing exV exE exV Hincl Htopo))
+              (fun v => st_rank_le 100 101 Hst (exp_topo exV) v)
+              (fun c e (Hc : In c (p_cons (e_base (m_err M)))) => match Hc with end) Hb) as ((HP & Hw & Herr & Hcov) & Hsum).
+  cbn zeta in *. rewrite <- Hsum.
+  apply (Hmin (conP (ErrEncOptimal.dec_path (eG (m_err M)) b (S (S (length (exp_topo exV)))))) (fun i => b (W i)) (fun i => b (Slack i))).
+  apply (choice_contracts exV exE 100 101 exfq exsc [] false 1 Hs Ht Hst HE).
+  split; [exact HP|]. split; [|split; [exact Herr|exact Hcov]].
+  intros i Hi. destruct (Hw i Hi) as ([W0 _] & Wi & [S0 _] & Si). tauto.
+Qed.
+Print Assumptions C08_node_solver_hypotheses_satisfiable.
+
+(* (b) the caller-input premises with an IGNORED node, a node with error scaling 0, weight_type = int and k = 2: chain 1 -> 2 -> 3,
+   every node weight 3, node 2 ignored, node 3 with scaling 0; weights 3, 0 and slacks 0, 0 are a choice within the model's bound
+   node_wmax = 2 * 3, so by C08_node_kmpe_feasible_iff the model of the expanded instance is satisfiable *)
+Definition C08_node_V3 : list node := [1; 2; 3]%N.
+Definition C08_node_E3 : list PathEnc.edge := [(1, 2); (2, 3)]%N.
+Definition C08_node_sc0 (v : node) : Q := if (v =? 3)%N then 0%Q else 1%Q.
+Example C08_node_premises_satisfiable_with_ignored_and_unscaled_nodes :
+  nodes_basic C08_node_V3 [2%N] C08_node_sc0 = [1%N] /\
+  node_domain1 C08_node_V3 (fun _ => 3%Q) C08_node_sc0 [2%N] true 2 /\
+  node_kmpe_choice_bounded C08_node_V3 C08_node_E3 (fun _ => 3%Q) C08_node_sc0 [2%N] true 2
+    (fun _ => [1; 2; 3]%N) (fun i => if (i =? 0)%N then 3%Q else 0%Q) (fun _ => 0%Q) /\
+  (exists a, sat a (encode_kmpe (node_kmpe_inst C08_node_V3 C08_node_E3 100 101 (fun _ => 3%Q) C08_node_sc0 [2%N] true 2))).
+Proof.
+  assert (HD : node_domain1 C08_node_V3 (fun _ => 3%Q) C08_node_sc0 [2%N] true 2).
+  { split; [|split; [discriminate|lia]]. intros v Hv. cbn in Hv. destruct Hv as [<-|[]]. cbn.
+    split; [discriminate|]. split; [split; discriminate|]. intros _. exists 3%Z. reflexivity. }
+  assert (HC : node_kmpe_choice_bounded C08_node_V3 C08_node_E3 (fun _ => 3%Q) C08_node_sc0 [2%N] true 2
+                 (fun _ => [1; 2; 3]%N) (fun i => if (i =? 0)%N then 3%Q else 0%Q) (fun _ => 0%Q)).
+  { split; [split; [|split]|].
+    - intros i _. split; [discriminate|]. split; [intros x Hx; exact Hx|]. split; [intros e He; exact He|].
+      split; intros u Hu; cbn in Hu; destruct Hu as [Eq|[Eq|[]]]; discriminate Eq.
+    - intros i _. destruct (i =? 0)%N; (split; [discriminate|split; [intros _; eexists; reflexivity|split; [discriminate|intros _; exists 0%Z; reflexivity]]]).
+    - intros v Hv. cbn in Hv. destruct Hv as [<-|[]]. vm_compute. discriminate.
+    - intros i Hi. cbn in Hi. destruct Hi as [<-|[<-|[]]]; vm_compute; split; discriminate. }
+  split; [reflexivity|]. split; [exact HD|]. split; [exact HC|].
+  apply (C08_node_kmpe_feasible_iff C08_node_V3 C08_node_E3 100 101 C08_node_V3 (fun _ => 3%Q) C08_node_sc0 [2%N] true 2).
+  - cbn; intuition discriminate.
+  - cbn; intuition discriminate.
+  - discriminate.
+  - intros e He. cbn in He. destruct He as [<-|[<-|[]]]; cbn; tauto.
+  - repeat constructor; cbn; intuition discriminate.
+  - repeat constructor; cbn; intuition discriminate.
+  - intros u v Huv. cbn in Huv. destruct Huv as [Eq|[Eq|[]]]; injection Eq as <- <-; cbn; lia.
+  - apply incl_refl.
+  - eexists _, _, _. exact HC.
+Qed.
+Print Assumptions C08_node_premises_satisfiable_with_ignored_and_unscaled_nodes.
